@@ -51,6 +51,8 @@ def main():
     lines = ['| seeded change | property | what it changes | needs | check -> result (first violated clause) |', '|---|---|---|---|---|']
     for sid in ids:
         mp = '%s/seeded/%s/meta.json' % (V, sid)
+        if not os.path.exists(mp):          # a seed that was removed while the run was under way
+            continue
         meta = json.load(open(mp))
         meta['detected_by'] = [pid for pid, rc, _ in res.get(sid, []) if rc == 1]
         meta['selftest'] = [{'check': pid, 'exit': rc, 'first_clauses': keys} for pid, rc, keys in res.get(sid, [])]
